@@ -3,6 +3,7 @@ package gosym
 import (
 	"fmt"
 	"go/types"
+	"regexp/syntax"
 
 	"golang.org/x/tools/go/ssa"
 )
@@ -407,6 +408,38 @@ func registerStrNatives(in *Interp) {
 			return TupleV{v, IfaceV{}}
 		}
 		return TupleV{tb.Int(0), in.newError("strconv.Atoi: invalid syntax")}
+	}
+	n["strconv.ParseFloat"] = func(in *Interp, fn *ssa.Function, args []Value) Value {
+		// acceptance grammar only (decimal and hexadecimal floats without digit
+		// separators, the textual specials); the value is not modelled
+		s := args[0].(StrV)
+		if in.pfRE == nil {
+			pats := []string{
+				`^[+\-]?([0-9]+\.?[0-9]*|\.[0-9]+)([eE][+\-]?[0-9]+)?$`,
+				`^[+\-]?0[xX]([0-9a-fA-F]+\.?[0-9a-fA-F]*|\.[0-9a-fA-F]+)[pP][+\-]?[0-9]+$`,
+				`^[+\-]?([iI][nN][fF]|[iI][nN][fF][iI][nN][iI][tT][yY]|[nN][aA][nN])$`,
+			}
+			for _, p := range pats {
+				re, err := syntax.Parse(p, syntax.Perl)
+				if err != nil {
+					panic(err)
+				}
+				prog, err := syntax.Compile(re.Simplify())
+				if err != nil {
+					panic(err)
+				}
+				in.pfRE = append(in.pfRE, &regexModel{pat: p, prog: prog})
+			}
+		}
+		ok := tb.False
+		for _, rm := range in.pfRE {
+			ok = tb.Or(ok, in.regexMatch(rm, s))
+		}
+		in.noteAssumption("strconv.ParseFloat modelled by its acceptance grammar (no digit separators, exponents below the range limit); the parsed value is not modelled")
+		if in.branch(ok) {
+			return TupleV{tb.FPConst(0), IfaceV{}}
+		}
+		return TupleV{tb.FPConst(0), in.newError("strconv.ParseFloat: invalid syntax")}
 	}
 	n["strconv.ParseInt"] = func(in *Interp, fn *ssa.Function, args []Value) Value {
 		base := args[1].(*Term)
